@@ -5,7 +5,7 @@ use crate::engine::{Ctx, Rec, Tier};
 use crate::zoo;
 use feos::pcsaft::PcSaftFunctional;
 use feos::ResidualModel;
-use feos_core::{Contributions, DensityInitialization, PhaseEquilibrium, ReferenceSystem, State};
+use feos_core::{Components, Contributions, DensityInitialization, PhaseEquilibrium, ReferenceSystem, State};
 use feos_dft::adsorption::{ExternalPotential, Pore1D, PoreSpecification};
 use feos_dft::interface::PlanarInterface;
 use feos_dft::{DFTSolver, DFTSpecifications, Geometry};
@@ -246,9 +246,59 @@ fn pore(sys: &Sys, rec: &mut Rec) {
     }
 }
 
+/// particle-number specifications for a mixture or a heterosegmented molecule in a slit pore: the grand-canonical solution
+/// fixes N0; the profile is then re-solved with Moles / TotalMoles set to N0 and to 1.1 N0 with a long, strongly damped
+/// Anderson chain (the default solver does not converge for these)
+fn spec(sys: &Sys, rec: &mut Rec) {
+    let eos = &sys.eos;
+    use feos_dft::HelmholtzEnergyFunctional;
+    let nc = eos.components();
+    let x = if nc == 1 { arr1(&[1.0]) } else { arr1(&[0.6, 0.4]) };
+    let Ok(cp) = State::critical_point(eos, Some(&(x.clone() * MOL)), None, Default::default()) else { return };
+    let t = cp.temperature * sys.tr;
+    let p = cp.pressure(Contributions::Total) * 0.02;
+    let Ok(bulk) = State::new_npt(eos, t, p, &(x.clone() * MOL), DensityInitialization::Vapor) else { return };
+    let pore = Pore1D::new(Geometry::Cartesian, 20.0 * ANGSTROM, ExternalPotential::LJ93 { sigma_ss: 3.0, epsilon_k_ss: 100.0, rho_s: 0.08 }, Some(sys.n_grid), None);
+    let Ok(gc) = pore.initialize(&bulk, None, None).and_then(|p| p.solve(None)) else {
+        rec.skip("grand-canonical reference does not converge (conditional)");
+        return;
+    };
+    let n0 = gc.profile.moles().to_reduced();
+    let solver = DFTSolver::new(None).anderson_mixing(Some(true), Some(50), Some(1e-5), None, None).anderson_mixing(Some(false), Some(1500), Some(1e-11), Some(0.05), Some(20));
+    for f in [1.0, 1.1] {
+        for kind in ["moles", "total_moles"] {
+            let mut pp = gc.clone();
+            pp.profile.specification = Arc::new(if kind == "moles" { DFTSpecifications::Moles { moles: &n0 * f } } else { DFTSpecifications::TotalMoles { total_moles: n0.sum() * f } });
+            let sub = format!("{kind}|{f}N0");
+            match pp.solve_inplace(Some(&solver), false) {
+                Ok(()) => {
+                    rec.count(&format!("spec_{kind}_converged"));
+                    check_profile(rec, &sub, &pp.profile, 1e-11);
+                    let n = pp.profile.moles().to_reduced();
+                    let e = if kind == "moles" { (&n - &(&n0 * f)).iter().zip(n0.iter()).map(|(d, n)| (d / (n * f)).abs()).fold(0.0, f64::max) } else { ((n.sum() - n0.sum() * f) / (n0.sum() * f)).abs() };
+                    // the residual tolerance (1e-11 in reduced density, densities ~1e-4) bounds the particle number only up to the
+                    // conditioning of the strongly damped fixed-point map: 6e-6 observed on the pinned tree for 1.1 N0
+                    rec.check("specified_particle_number", &sub, e / 1e-4, true, || format!("specified {} x {f}, profile contains {n}", n0));
+                    if f == 1.0 {
+                        // the grand-canonical profile already has N0 particles: it must be reproduced
+                        let d = ((&pp.profile.density.to_reduced() - &gc.profile.density.to_reduced()).mapv(f64::abs).sum() / gc.profile.density.to_reduced().sum()).abs();
+                        rec.check("path_independent_observable", &format!("{sub}|profile"), d / 1e-6, true, || format!("profile with the particle number of the grand-canonical solution differs from it by {d:e} (relative l1)"));
+                    }
+                }
+                Err(_) => {
+                    rec.count(&format!("spec_{kind}_not_converged"));
+                    rec.skip("particle-number specification does not converge (conditional)");
+                }
+            }
+        }
+    }
+}
+
 fn case(sys: &Sys, rec: &mut Rec) {
     if sys.kind == "planar" {
         planar(sys, rec)
+    } else if sys.kind == "spec" {
+        spec(sys, rec)
     } else {
         pore(sys, rec)
     }
@@ -265,7 +315,11 @@ pub fn run(ctx: &mut Ctx) {
     let d = tier.pick(2, 3);
     systems.push(Sys { id: "pcsaft:propane".into(), eos: propane.clone(), tr: 0.8, kind: "planar", depth: d, n_grid: 512 });
     systems.push(Sys { id: "pcsaft:methane".into(), eos: methane.clone(), tr: 0.9, kind: "pore:slit", depth: d, n_grid: 256 });
+    let binary: F = Arc::new(ResidualModel::PcSaftFunctional(PcSaftFunctional::new(zoo::pcsaft_params(&[(&["butane", "pentane"], "gross2001")]))));
+    systems.push(Sys { id: "pcsaft:butane+pentane".into(), eos: binary.clone(), tr: 1.05, kind: "spec", depth: 0, n_grid: 256 });
+    systems.push(Sys { id: "gcpcsaft:hexane".into(), eos: hexane_gc.clone(), tr: 1.05, kind: "spec", depth: 0, n_grid: 256 });
     if tier == Tier::Thorough {
+        systems.push(Sys { id: "pcsaft:butane+pentane".into(), eos: binary, tr: 0.9, kind: "spec", depth: 0, n_grid: 512 });
         systems.push(Sys { id: "pcsaft:propane".into(), eos: propane.clone(), tr: 0.6, kind: "planar", depth: 3, n_grid: 512 });
         systems.push(Sys { id: "pcsaft:propane".into(), eos: propane.clone(), tr: 0.95, kind: "planar", depth: 3, n_grid: 512 });
         systems.push(Sys { id: "pcsaft:water".into(), eos: water, tr: 0.7, kind: "planar", depth: 2, n_grid: 512 });
